@@ -1,15 +1,18 @@
 #!/bin/bash
-# seedtest.sh <seed_id> [props...] -- apply seeded/<id>/patch.diff to /repo, run ./check for the given properties
-# (default: the seed's own property), print the result lines, and ALWAYS restore /repo afterwards.
+# seedtest.sh <seed_id> [props...] -- apply seeded/<id>/patch.diff to a SCRATCH COPY of /repo (never /repo itself, other
+# runs may be reading it), run ./check for the given properties (default: the seed's own property) with VERIF_REPO pointing
+# at the copy, print the result lines, remove the copy.
 ID=$1; shift
 PROPS="$@"
 [ -z "$PROPS" ] && PROPS=$(echo $ID | cut -d_ -f1)
+S=/tmp/seedrepo_$ID
+rm -rf $S; mkdir -p $S
+rsync -a --exclude target --exclude .git /repo/ $S/
+(cd $S && git init -q . && git apply /verif/seeded/$ID/patch.diff) || { echo "patch does not apply"; rm -rf $S; exit 2; }
 cd /verif
-if [ -n "$(git -C /repo status --porcelain -- src)" ]; then echo "/repo/src is dirty; refusing"; exit 2; fi
-git -C /repo apply /verif/seeded/$ID/patch.diff || { echo "patch does not apply"; exit 2; }
-trap 'git -C /repo checkout -- . ' EXIT
 for p in $PROPS; do
-  out=$(VERIF_WORK=/verif/.work/seed_$ID ./check $p 2>&1); rc=$?
+  out=$(VERIF_REPO=$S VERIF_WORK=/verif/.work/seed_$ID ./check $p 2>&1); rc=$?
   echo "== $ID vs $p: exit $rc"
   echo "$out" | grep -E "^VIOLATION|^UNDECIDED|^OK" | cut -c1-260 | head -8
 done
+rm -rf $S /verif/.work/seed_$ID
